@@ -6,7 +6,7 @@ use std::mem;
 use crate::http::{HeaderMap, HeaderName, HeaderValue, Method, Request, Uri, Version, Hdr, by_name, first_value, lower};
 use crate::url::Url;
 use crate::body::{BodyWriter, SenderMode};
-use crate::ext::{MethodExt, method_needs_body, spec_verify_version};
+use crate::ext::{MethodExt, method_needs_body, spec_verify_version, res_agree};
 use crate::util::{compare_lowercase_ascii, spec_compare_lowercase_ascii, ArrayVec};
 use crate::error::Error;
 use crate::client::MAX_EXTRA_HEADERS;
@@ -213,7 +213,7 @@ FN('new_uri_from_location', props=['C14', 'C12'], ret='r',
    ])
 
 FN('analyze', props=['C17', 'C02'], ret='r',
-   ensures=[('C17.classes_exact', 'r == spec_analyze(self.request.spec_method(), self.request.spec_version(), self.eff(), wanted_mode, skip_method_body_check)')],
+   ensures=[('C17.classes_exact', 'res_agree(r, spec_analyze(self.request.spec_method(), self.request.spec_version(), self.eff(), wanted_mode, skip_method_body_check))')],
    head='broadcast use axiom_parse_u64;',
    rewrites=[
        ('N9', 'self.headers_get_all("host").count()', 'self.count_named("host")'),
